@@ -196,6 +196,9 @@ def scripted_histories():
     # a name that is not valid UTF-8
     H.append([("w", "A", "keep", Z), ("w", "B", "keep", Z), ("s",), ("w", "A", "caf\udce9.txt", Y), ("s",), ("s",), ("d", "B", "caf\udce9.txt"), ("s",)])
     H.append([("w", "B", "d/\udcff\udcfe", X), ("w", "A", "g", Y), ("s",), ("s",)])
+    # a non-UTF-8 name on both sides, later a file whose name is that name's lossy rendering with the same bytes
+    for side in "AB":
+        H.append([("w", "A", "caf\udce9.txt", Z), ("w", "B", "caf\udce9.txt", Z), ("w", "A", "keep", Y), ("w", "B", "keep", Y), ("s",), ("w", side, "caf\ufffd.txt", Z), ("s",), ("s",)])
     # the receiving file has a second hard link elsewhere
     H.append([("w", "A", "f", Z), ("w", "B", "f", Z), ("w", "A", "g", Y), ("w", "B", "g", Y), ("s",), ("hl", "B", "f"), ("hl", "A", "g"), ("w", "A", "f", X), ("d", "B", "g"), ("s",), ("s",)])
     # recreate after delete propagated
@@ -904,6 +907,11 @@ def c07_case(sb, rng, kind, arg=None):
             write_file(os.path.join(sb.side("B" if side == "A" else "A"), p), b"mod2:" + p.encode())
     if rng.chance(1, 2):
         write_file(os.path.join(sb.A, "only-a"), b"only-a")
+    if rng.chance(1, 2):
+        # size and time say "same", the bytes do not (cp -p, rsync -t, touch -r): without a record only the bytes count
+        for sd, body in (("A", b"twin-a-" + b"x" * 40), ("B", b"twin-b-" + b"y" * 40)):
+            write_file(os.path.join(sb.side(sd), "d/twin"), body)
+            os.utime(os.path.join(sb.side(sd), "d/twin"), ns=(1_650_000_000_123_456_789, 1_650_000_000_123_456_789))
     ctl = bisync(sb, dry=True)
     planned_deletes = sum(1 for ln in ctl.stdout.splitlines() if ln.startswith("Delete"))
     desc = inject_fault(sb, kind, rng, arg)
@@ -1221,6 +1229,8 @@ def c08_scenarios():
     big15 = (b"fedcba9876543210" * 4096) * 24  # 1.5 MiB
     S["big-file-1.5M-create"] = [("w", "A", "keep", Z), ("w", "B", "keep", Z), ("s",), ("w", "B", "dir/big15", big15)]
     S["big-file-1.5M-replace"] = [("w", "A", "big15", big15), ("w", "B", "big15", big15), ("s",), ("w", "A", "big15", big15[::-1])]
+    for ln in (250, 255):
+        S["name-of-%d-bytes" % ln] = [("w", "A", "keep", Z), ("w", "B", "keep", Z), ("s",), ("w", "A", "n" * ln, big[:300000])]
     S["big-replace"] = [("w", "A", "big", big), ("w", "B", "big", big), ("s",), ("w", "B", "big", big[::-1])]
     return S
 
